@@ -109,6 +109,13 @@ pub fn run(ctx: &mut Ctx) {
                     e2.disable_tags(&[*t]);
                 }
             }
+            if r.chance(1, 3) {
+                let buf = e2.serialize_raw().expect("serialize");
+                let mut fresh = adblock::Engine::new(optimize);
+                fresh.use_tags(&tags);
+                fresh.deserialize(&buf).expect("own buffer");
+                e2 = fresh;
+            }
             // third engine: a live Blocker that receives the (permuted) rules one add_filter at a time
             let mut live = adblock::blocker::Blocker::new(vec![], &adblock::blocker::BlockerOptions { enable_optimizations: false });
             for line in &permuted {
